@@ -94,14 +94,37 @@ class Family:
     def func(self, cname: str, fname: str) -> Optional[ast.FunctionDef]:
         if cname == "":
             f = self.mod.find(fname)
-            return f if isinstance(f, ast.FunctionDef) else None
+            return self.view(f) if isinstance(f, ast.FunctionDef) else None
         c = self.classes.get(cname)
         if c is None:
             return None
         r = mro_lookup(self.mod, c, fname)
         if r is None or not isinstance(r[1], ast.FunctionDef):
             return None
-        return r[1]
+        return self.view(r[1])
+
+    @staticmethod
+    def _takes_a_decodable(h: ast.FunctionDef) -> bool:
+        """A private module-level helper that calls a family method (decode / fromStr / parseRecords) on one of its own parameters: what it does depends
+        on the call site, so it is read at each call site with the arguments substituted instead of being classified on its own."""
+        params = {a.arg for a in h.args.args}
+        return any(isinstance(c, ast.Call) and isinstance(c.func, ast.Attribute) and c.func.attr in ("decode", "fromStr", "parseRecords") and isinstance(c.func.value, ast.Name)
+                   and c.func.value.id in params for c in ast.walk(h))
+
+    def view(self, f: ast.FunctionDef) -> ast.FunctionDef:
+        """The function as the rules read it: helpers that take the decodable as a parameter inlined at their call sites (cached per definition)."""
+        from sa.props._lib_g import inline_module_helpers
+        views = self.__dict__.setdefault("_views", {})
+        k = id(f)
+        if k not in views:
+            if self._takes_a_decodable(f) and not isinstance(getattr(f, "_parent", None), ast.ClassDef):
+                views[k] = (f, f)
+            else:
+                v, inl, refused = inline_module_helpers(self.mod, f, self._takes_a_decodable)
+                for r in refused:
+                    self.ctx.note(f"family: helper not inlined ({r}); it is classified on its own")
+                views[k] = (f, v)       # the original is kept alive so that its id stays unique
+        return views[k][1]
 
     def owner(self, cname: str, fname: str) -> str:
         c = self.classes.get(cname)
@@ -1285,6 +1308,9 @@ def _finite_iterable(e, lp, sz, depth: int = 0):
         nm = call_name(e) or ""
         if nm == "range":
             return True, ""
+        gf = sz.fam.funcs.get(("", nm)) if isinstance(e.func, ast.Name) else None
+        if gf is not None and any(isinstance(x, (ast.Yield, ast.YieldFrom)) for x in walk_local(gf)):
+            return True, ""      # a generator of the decode family: it ends when its own loops do, which the termination rules decide in its own section
         if nm in _ENDLESS and not (nm.endswith("repeat") and len(e.args) == 2):
             return False, f"{nm}() never ends"
         if nm == "iter" and len(e.args) == 2:
@@ -1523,7 +1549,8 @@ def _check_pointer_loop(ctx, fam, key, f, g, lp, heads, seeks, progress, cons):
         tdef = single_defs(f).get(target)
         ok = False
         if tdef is not None:
-            names = {x.id for x in ast.walk(tdef) if isinstance(x, ast.Name)} - {"ord", "readPrecisely", f.args.args[1].arg}
+            streams = {c.args[0].id for c in ast.walk(f) if isinstance(c, ast.Call) and call_name(c) == "readPrecisely" and c.args and isinstance(c.args[0], ast.Name)}
+            names = {x.id for x in ast.walk(tdef) if isinstance(x, ast.Name)} - {"ord", "readPrecisely"} - streams
             if len(names) == 1:
                 ln = next(iter(names))
                 ok = True
@@ -1753,6 +1780,8 @@ def check(ctx):
 
 
 MUTANTS = [
+    Mutant("payload-decoded-through-a-helper-without-its-length", DNS, "            t = self.lookupRecordType(header.type)\n            if not t:\n                continue\n            header.payload = t(ttl=header.ttl)\n            try:\n                header.payload.decode(strio, header.rdlength)\n            except EOFError:\n                return\n            list.append(header)\n", "            t = self.lookupRecordType(header.type)\n            if not t:\n                continue\n            header.payload = t(ttl=header.ttl)\n            if _cutShort(header.payload, strio):\n                return\n            list.append(header)\n", more=[(DNS, "def readPrecisely(file, l):\n", "def _cutShort(thing, stream, *more):\n    try:\n        thing.decode(stream, *more)\n    except EOFError:\n        return True\n    else:\n        return False\n\n\ndef readPrecisely(file, l):\n")], expect_rule="escape/length-supplied"),
+    Mutant("label-generator-never-tests-the-visited-set", DNS, "        visited = set()\n        self.name = b\"\"\n        off = 0\n        while 1:\n            l = ord(readPrecisely(strio, 1))\n            if l == 0:\n                if off > 0:\n                    strio.seek(off)\n                return\n            if (l >> 6) == 3:\n                new_off = (l & 63) << 8 | ord(readPrecisely(strio, 1))\n                if new_off in visited:\n                    raise ValueError(\"Compression loop in encoded name\")\n                visited.add(new_off)\n                if off == 0:\n                    off = strio.tell()\n                strio.seek(new_off)\n                continue\n            label = readPrecisely(strio, l)\n            if self.name == b\"\":\n                self.name = label\n            else:\n                self.name = self.name + b\".\" + label\n", "        parts = list(_walkLabels(strio))\n        self.name = b\".\".join(parts)\n", more=[(DNS, "def readPrecisely(file, l):\n", "def _walkLabels(stream):\n    back = 0\n    seen = set()\n    while True:\n        n = ord(readPrecisely(stream, 1))\n        if n == 0:\n            if back > 0:\n                stream.seek(back)\n            return\n        if n & 0xC0 != 0xC0:\n            yield readPrecisely(stream, n)\n            continue\n        where = (n & 0x3F) << 8 | ord(readPrecisely(stream, 1))\n        seen.add(where)\n        if back == 0:\n            back = stream.tell()\n        stream.seek(where)\n\n\ndef readPrecisely(file, l):\n")], expect_rule="termination/pointer-visited-test"),
     Mutant("sections-parsed-in-an-endless-cycle", DNS, "        items = ((self.answers, nans), (self.authority, nns), (self.additional, nadd))\n\n        for l, n in items:\n            self.parseRecords(l, n, strio)\n",
            "        for l in cycle((self.answers, self.authority, self.additional)):\n            self.parseRecords(l, nans, strio)\n", more=[(DNS, "from itertools import chain\n", "from itertools import chain, cycle\n")],
            expect_rule="termination/for-finite"),
@@ -1828,6 +1857,9 @@ MUTANTS = [
 ]
 
 SILENT = [
+    # a helper taking the decodable as a parameter is read at its call sites; the pointer walk as a private generator
+    Silent("payload-decoded-through-a-helper-that-reports-truncation", DNS, "            t = self.lookupRecordType(header.type)\n            if not t:\n                continue\n            header.payload = t(ttl=header.ttl)\n            try:\n                header.payload.decode(strio, header.rdlength)\n            except EOFError:\n                return\n            list.append(header)\n", "            t = self.lookupRecordType(header.type)\n            if not t:\n                continue\n            header.payload = t(ttl=header.ttl)\n            if _cutShort(header.payload, strio, header.rdlength):\n                return\n            list.append(header)\n", more=[(DNS, "def readPrecisely(file, l):\n", "def _cutShort(thing, stream, *more):\n    try:\n        thing.decode(stream, *more)\n    except EOFError:\n        return True\n    else:\n        return False\n\n\ndef readPrecisely(file, l):\n")]),
+    Silent("name-labels-from-a-private-generator", DNS, "        visited = set()\n        self.name = b\"\"\n        off = 0\n        while 1:\n            l = ord(readPrecisely(strio, 1))\n            if l == 0:\n                if off > 0:\n                    strio.seek(off)\n                return\n            if (l >> 6) == 3:\n                new_off = (l & 63) << 8 | ord(readPrecisely(strio, 1))\n                if new_off in visited:\n                    raise ValueError(\"Compression loop in encoded name\")\n                visited.add(new_off)\n                if off == 0:\n                    off = strio.tell()\n                strio.seek(new_off)\n                continue\n            label = readPrecisely(strio, l)\n            if self.name == b\"\":\n                self.name = label\n            else:\n                self.name = self.name + b\".\" + label\n", "        parts = list(_walkLabels(strio))\n        self.name = b\".\".join(parts)\n", more=[(DNS, "def readPrecisely(file, l):\n", "def _walkLabels(stream):\n    back = 0\n    seen = set()\n    while True:\n        n = ord(readPrecisely(stream, 1))\n        if n == 0:\n            if back > 0:\n                stream.seek(back)\n            return\n        if n & 0xC0 != 0xC0:\n            yield readPrecisely(stream, n)\n            continue\n        where = (n & 0x3F) << 8 | ord(readPrecisely(stream, 1))\n        if where in seen:\n            raise ValueError(\"Compression loop in encoded name\")\n        seen.add(where)\n        if back == 0:\n            back = stream.tell()\n        stream.seek(where)\n\n\ndef readPrecisely(file, l):\n")]),
     # a module-level helper driven by a table of (attribute, factory) rows that every caller passes as a literal; zip()/enumerate() loops
     Silent("rp-decoded-by-a-table-driven-helper", DNS, "        self.mbox = Name()\n        self.txt = Name()\n        self.mbox.decode(strio)\n        self.txt.decode(strio)\n",
            "        _decodeFresh(self, strio, ((\"mbox\", Name), (\"txt\", Name)))\n",
